@@ -158,3 +158,94 @@ def t_update_times():
                   z3.ForAll([x], z3.Implies(s1.mem(mk, x), z3.Xor(s1.mem(f1, x), s1.mem(f2, x)))), "post")
     obl, info = UPDATE_TIMES.verify(specs=specs, loops=loops, extra_goals=extra)
     return {"obligations": obl, "info": [info]}
+
+
+# ----------------------------------------------------------------------------- event hook triggers (C13): the nine _trigger_event_* functions
+from pyvc.spec import ELEM, implied      # noqa
+
+TRIGGERS = [  # (function, table key, hook method, name of the argument, time-of-occurrence(st, sim, arg))
+    ("_trigger_event_before_order", "order_before", "hooked_before_order", "order", ("ref", "Order"),
+     lambda st, sim, a: st.read(V(("ref", "Market"), z3.Select(st.dict_val(st.read(sim, "id2market")), st.read(a, "market_id").term)), "time").term),
+    ("_trigger_event_after_order", "order_after", "hooked_after_order", "order_log", ("ref", "OrderLog"), lambda st, sim, a: st.read(a, "time").term),
+    ("_trigger_event_before_cancel", "cancel_before", "hooked_before_cancel", "cancel", ("ref", "Cancel"),
+     lambda st, sim, a: st.read(V(("ref", "Market"), z3.Select(st.dict_val(st.read(sim, "id2market")), st.read(st.read(a, "order"), "market_id").term)), "time").term),
+    ("_trigger_event_after_cancel", "cancel_after", "hooked_after_cancel", "cancel_log", ("ref", "CancelLog"), lambda st, sim, a: st.read(a, "cancel_time").term),
+    ("_trigger_event_after_execution", "execution_after", "hooked_after_execution", "execution_log", ("ref", "ExecutionLog"), lambda st, sim, a: st.read(a, "time").term),
+    ("_trigger_event_before_session", "session_before", "hooked_before_session", "session", ("ref", "Session"), lambda st, sim, a: st.read(a, "session_start_time").term),
+    ("_trigger_event_after_session", "session_after", "hooked_after_session", "session", ("ref", "Session"),
+     lambda st, sim, a: st.read(a, "session_start_time").term + st.read(a, "iteration_steps").term - 1),
+    ("_trigger_event_before_step_for_market", "market_before", "hooked_before_step_for_market", "market", ("ref", "Market"), lambda st, sim, a: st.read(a, "time").term),
+    ("_trigger_event_after_step_for_market", "market_after", "hooked_after_step_for_market", "market", ("ref", "Market"), lambda st, sim, a: st.read(a, "time").term),
+]
+
+
+def table(st, sim, key):
+    ed = st.read(sim, "events_dict")
+    inner = V(ed.ty[2], z3.Select(st.dict_val(ed), z3.StringVal(key)))
+    return ed, inner
+
+
+def bucket(st, inner, k):
+    return z3.Select(st.dict_dom(inner), k), z3.Select(st.dict_val(inner), k)
+
+
+def trigger_task(fname, key, method, argname, argty, time_of):
+    qual = "Simulator." + fname
+    is_market = key.startswith("market_")
+
+    def pre(st, a):
+        sim, arg = a["self"], a[argname]
+        ed, inner = table(st, sim, key)
+        cs = [("the hook table has an entry for this occasion", st.dict_has(ed, V(("str",), z3.StringVal(key))))]
+        if "order" in argname and fname.endswith(("before_order",)):
+            cs.append(("the order names a registered market", st.dict_has(st.read(sim, "id2market"), st.read(arg, "market_id"))))
+        if fname.endswith("before_cancel"):
+            cs.append(("the cancelled order names a registered market", st.dict_has(st.read(sim, "id2market"), st.read(st.read(arg, "order"), "market_id"))))
+        return cs
+    spec = FSpec(qual, pre=pre, props=("C13",), modifies=lambda st, a: ["len", "mem", "el:Ref", "nodup", "heapok"])
+    specs = {("m", "EventABC", method): emit("Hooked")}
+    fe = ForEachTrace(name="matching-hooks")
+
+    def extra(ex, st0, s1, a, res):
+        sim, arg = a["self"], a[argname]
+        tr = s1.trace
+        if [t[0] for t in tr] != ["ForEach"]:
+            s1.oblige(f"trace:exactly one pass over the selected hooks (got {[t[0] for t in tr]})", z3.BoolVal(False), "trace"); return
+        L, tmpl = tr[0][2]
+        ed, inner = table(st0, sim, key)
+        tm = time_of(st0, sim, arg)
+        dN, bN = bucket(st0, inner, OptInt.onone); dT, bT = bucket(st0, inner, OptInt.osome(tm))
+        x = z3.Const("x_trg", REF); i = z3.Int("i_trg")
+        nN = z3.If(dN, st0.length(bN), 0); nT = z3.If(dT, st0.length(bT), 0)
+        LE = s1.elems(L, ("ref", "EventHook"))
+        s1.oblige("post:C13 the hooks invoked are those registered for all times followed by those registered for the occurrence's time, each once, in registration order",
+                  z3.And(s1.length(L) == nN + nT,
+                         z3.ForAll([i], z3.Implies(z3.And(0 <= i, i < nN), z3.Select(LE, i) == z3.Select(st0.elems(bN, ("ref", "EventHook")), i))),
+                         z3.ForAll([i], z3.Implies(z3.And(nN <= i, i < nN + nT), z3.Select(LE, i) == z3.Select(st0.elems(bT, ("ref", "EventHook")), i - nN)))), "post")
+        calls = [t for t in tmpl if t[0] == "Hooked"]
+        if not calls or len(calls) != len(tmpl) or (not is_market and len(calls) != 1):
+            s1.oblige(f"trace:each selected hook leads to exactly one call of {method} (got {[t[0] for t in tmpl]})", z3.BoolVal(False), "trace"); return
+        ev_of = s1.F("EventHook", "event")[ELEM]
+        for c in calls:
+            s1.oblige(f"trace:C13 the call goes to the hook's own event with this simulator and this {argname}", z3.And(c[2][0] == ev_of, c[2][1] == sim.term, c[2][2] == arg.term), "trace")
+        if is_market:
+            # the body paths are mutually exclusive; the hook is called on exactly those paths where the filter passes
+            sc = s1.read(V(("ref", "EventHook"), ELEM), "specific_class"); si = s1.read(V(("ref", "EventHook"), ELEM), "specific_instance")
+            isd = z3.Function("isinstance_dyn", REF, z3.IntSort(), z3.BoolSort())
+            want = z3.And(z3.Or(sc.none, isd(arg.term, sc.term)), z3.Or(si.none, si.term == arg.term))
+            gs = [c[1] if c[1] is not None else z3.BoolVal(True) for c in calls]
+            s1.oblige("trace:C13 a market-step hook is invoked iff the market passes the hook's class and instance filter", z3.Or(*gs) == want, "trace")
+            pairs = [z3.Not(z3.And(gs[i_], gs[j_])) for i_ in range(len(gs)) for j_ in range(i_ + 1, len(gs))]
+            s1.oblige("trace:C13 at most one call per selected hook", z3.And(*pairs) if pairs else z3.BoolVal(True), "trace")
+        else:
+            s1.oblige("trace:C13 no filter other than the time applies", z3.BoolVal(calls[0][1] is None), "trace")
+
+    def build():
+        obl, info = spec.verify(loops={0: fe}, specs=specs, extra_goals=extra)
+        return {"obligations": obl, "info": [info]}
+    build.__doc__ = f"{fname}: selection by time bucket (None = always) and call of {method} per selected hook"
+    task(qual, props=["C13"], functions=[qual] + (["Simulator._check_event_class_and_instance"] if is_market else []), replay="whole_run")(build)
+
+
+for _t in TRIGGERS:
+    trigger_task(*_t)
